@@ -1,7 +1,8 @@
 #!/usr/bin/env python3
 """translate_imp.py - fail-closed translator for the small IMPERATIVE methods that mutate the dictionaries of CFDivisor / CFGraph
 (lending_move, borrowing_move, chip_transfer, set_fire, is_effective, get_degree; add_edge, get_valence, is_loopless;
-CFiringScript.get_firings / set_firings / update_firings; CFConfig.get_out_degree_S; CFOrientation.set_orientation) to Gallina.
+CFiringScript.get_firings / set_firings / update_firings; CFConfig.get_out_degree_S and the wrappers set_fire / lending_move / borrowing_move;
+CFOrientation.set_orientation / check_fullness / get_in_degree / get_out_degree) to Gallina.
 Writes coq/theories/TranslatedImpCFDivisor.v and TranslatedImpCFGraph.v (one file per class, so that a method that leaves the subset only
 affects the property that speaks about its class) from /repo's CURRENT source on every run; Link/ImpLink.v proves that each translated method, run on a
 dictionary state that represents a model state, raises exactly when the model refuses and otherwise ends in a state representing the model's
@@ -18,7 +19,9 @@ Assumed semantics (the trusted part of this tie, restated in Base/PyDict.v):
 Subset (anything else raises Unsupported and the run fails closed): see the methods stmt/expr below - assignments to locals, `x, y = (a, b)`,
 `if/else`, `raise`, `return e`, `for k in d`, `for k, v in d.items()`, `for x in <set>`, `s.add(x)`, `self.f[k] op= e`, `self.f[a][b] (op)= e`,
 `self.f (op)= e`, conditional expressions, the members of the enum OrientationState (read from the source: distinct integer constants),
-calls of already translated methods on self, and the early-exit loop `for ..: if c: return CONST`. An `if` whose branches only update state and which
+calls of already translated methods on self (and on self.divisor from a CFConfig), validation-only loops, the early-exit loop `for ..: if c: return CONST`, and loops
+that `return` from anywhere inside (the accumulator then carries `(option result, state)` and later iterations are skipped); `<` on vertices is the
+order of their names = of their numbers; a method with a result that also writes fields returns `(result, fields)`. An `if` whose branches only update state and which
 is followed by more statements is translated as `match (if c then A else B) with ...` so that the continuation appears once."""
 import ast, sys, os
 REPO = os.environ.get("CF_REPO", "/repo")
@@ -30,7 +33,8 @@ FIELDS = {
     "CFiringScript": {"self._script": ("self_script", "dictZ"), "self.graph.vertices": ("self_graph_vertices", "set")},
     "CFConfig": {"self.graph.graph": ("self_graph_graph", "dictD"), "self.graph.vertices": ("self_graph_vertices", "set"), "self.q_vertex": ("self_q_vertex", "key")},
     "CFOrientation": {"self.orientation": ("self_orientation", "dictD"), "self.graph.graph": ("self_graph_graph", "dictD"), "self.in_degree": ("self_in_degree", "dictZ"),
-                      "self.out_degree": ("self_out_degree", "dictZ"), "self.is_full": ("self_is_full", "bool"), "self.is_full_checked": ("self_is_full_checked", "bool")},
+                      "self.out_degree": ("self_out_degree", "dictZ"), "self.is_full": ("self_is_full", "bool"), "self.is_full_checked": ("self_is_full_checked", "bool"),
+                      "self.graph.vertices": ("self_graph_vertices", "set")},
 }
 FIELDS["CFConfigMoves"] = {"self.q_vertex": ("self_q_vertex", "key"), "self.v_tilde_vertices": ("self_v_tilde_vertices", "set"),
                            "self.divisor.degrees": ("self_divisor_degrees", "dictZ"), "self.divisor.graph.graph": ("self_divisor_graph_graph", "dictD")}
@@ -46,7 +50,8 @@ TARGETS = [
     ("chipfiring/CFiringScript.py", "CFiringScript", "get_firings"), ("chipfiring/CFiringScript.py", "CFiringScript", "set_firings"),
     ("chipfiring/CFiringScript.py", "CFiringScript", "update_firings"),
     ("chipfiring/CFConfig.py", "CFConfig", "get_out_degree_S"),
-    ("chipfiring/CFOrientation.py", "CFOrientation", "set_orientation"),
+    ("chipfiring/CFOrientation.py", "CFOrientation", "set_orientation"), ("chipfiring/CFOrientation.py", "CFOrientation", "check_fullness"),
+    ("chipfiring/CFOrientation.py", "CFOrientation", "get_in_degree"), ("chipfiring/CFOrientation.py", "CFOrientation", "get_out_degree"),
     ("chipfiring/CFConfig.py", "CFConfigMoves", "set_fire"), ("chipfiring/CFConfig.py", "CFConfigMoves", "lending_move"), ("chipfiring/CFConfig.py", "CFConfigMoves", "borrowing_move"),
 ]
 class Unsupported(Exception): pass
@@ -147,6 +152,9 @@ class Fn:
                 t = {"dictZ": "(d_mem %s %s)", "dictD": "(d_mem %s %s)", "set": "(s_mem %s %s)"}.get(tb)
                 if not t: bad(e, "membership in " + tb)
                 t = t % (a, b); return (t if isinstance(op, ast.In) else "(negb %s)" % t), "bool"
+            if ta == "key" and tb == "key" and isinstance(op, (ast.Lt, ast.LtE, ast.Gt, ast.GtE)):
+                # Vertex.__lt__ & co compare names; keys are numbered in name order (the harness' canonical ids), so this is the order of the numbers
+                return {ast.Lt: "(Nat.ltb %s %s)", ast.LtE: "(Nat.leb %s %s)", ast.Gt: "(Nat.ltb %s %s)", ast.GtE: "(Nat.leb %s %s)"}[type(op)] % ((a, b) if isinstance(op, (ast.Lt, ast.LtE)) else (b, a)), "bool"
             if ta == "key" and tb == "key" and isinstance(op, (ast.Eq, ast.NotEq)):
                 t = "(Nat.eqb %s %s)" % (a, b); return (t if isinstance(op, ast.Eq) else "(negb %s)" % t), "bool"
             if ta != "Z" or tb != "Z": bad(e, "comparison of %s and %s" % (ta, tb))
@@ -234,7 +242,9 @@ class Fn:
             if s.value is None: bad(s, "bare return")
             t, ty = self.expr(s.value)
             if self.rty not in (None, ty): bad(s, "returns of different types")
-            self.rty = ty; return self.wrap("RET_(%s)" % t)
+            self.rty = ty
+            if getattr(self, "loop_ret", []): return self.wrap("PyOk (Some (%s), %s)" % (t, self.loop_ret[-1]))     # inside a loop: leave it with the value and the current state
+            return self.wrap("RETB_ %s RETE_" % t)
         if isinstance(s, ast.Assign) and len(s.targets) == 1:
             tg = s.targets[0]
             if isinstance(tg, ast.Tuple) and isinstance(s.value, ast.Tuple) and len(tg.elts) == len(s.value.elts) and all(isinstance(x, ast.Name) for x in tg.elts):
@@ -352,7 +362,26 @@ class Fn:
                 self.env = env0; r, rt = self.expr(s.body[0].body[0].value)
                 if self.rty not in (None, rt): bad(s, "returns of different types")
                 self.rty = rt; pre = self.pending; self.pending = []; body = K(); self.pending = pre
-                return self.wrap("if existsb (fun %s => %s %s) %s then RET_(%s) else\n  %s" % (binder, bind, c, lst, r, body))
+                return self.wrap("if existsb (fun %s => %s %s) %s then RETB_ %s RETE_ else\n  %s" % (binder, bind, c, lst, r, body))
+            if any(isinstance(n_, ast.Return) for n_ in ast.walk(s)):
+                # a loop that can return: the accumulator carries (option result, state); once a result is there the remaining iterations are skipped
+                carried = self.assigned(s.body)
+                for v in carried:
+                    if v in [f[0] for f in FIELDS[self.cls].values()]:
+                        if v not in self.writes: self.writes.append(v)
+                        if v not in self.reads: self.reads.append(v)
+                    elif self.env.get(v) not in ("set", "Z"): bad(s, "loop-carried local " + v)
+                lst, bind, vs, binder = self.iter_of(s.iter, s.target)
+                pre = self.pending; self.pending = []; env0 = dict(self.env)
+                for x in vs:
+                    if x in self.env: bad(s, "loop variable shadows " + x)
+                self.env.update(vs); st = self.state_tuple(carried); self.can_raise = True
+                if not hasattr(self, "loop_ret"): self.loop_ret = []
+                self.loop_ret.append(st); inner = self.stmts(s.body, lambda: "PyOk (None, %s)" % st); self.loop_ret.pop(); self.env = env0
+                after = ("PyOk (Some r_, %s)" % self.loop_ret[-1]) if self.loop_ret else "RETB_ r_ RETE_"
+                body = K(); self.pending = pre
+                return self.wrap("match fold_left (fun acc_ %s => match acc_ with PyExn e_ => PyExn e_ | PyOk (Some r_, %s) => PyOk (Some r_, %s) | PyOk (None, %s) => %s\n  %s end) %s (PyOk (None, %s)) with PyExn e_ => PyExn e_ | PyOk (Some r_, %s) => %s | PyOk (None, %s) =>\n  %s end"
+                                 % (binder, st, st, st, bind, inner, lst, st, st, after, st, body))
             carried = self.assigned(s.body)
             if not carried and not any(isinstance(n_, ast.Raise) for n_ in ast.walk(s)): bad(s, "loop without effect")
             for v in carried:
@@ -414,7 +443,11 @@ class Fn:
             res = self.state_tuple(self.writes)
             body = body.replace("END_", ("PyOk %s" % res) if opt else res); rt = ("pyres (%s) (%s)" % (wt, wt)) if opt else wt
         else:
-            body = body.replace("RET_(", "PyOk (" if opt else "("); rt = ("pyres (%s) %s" % (wt, COQTY[self.rty])) if opt else COQTY[self.rty]
+            # a method with a result: the result alone when it writes nothing, otherwise (result, written fields)
+            tail = (", %s)" % self.state_tuple(self.writes)) if self.writes else ")"
+            body = body.replace("RETB_ ", "PyOk (" if opt else "(").replace(" RETE_", tail)
+            rty_ = ("(%s * (%s))" % (COQTY[self.rty], wt)) if self.writes else COQTY[self.rty]
+            rt = ("pyres (%s) %s" % (wt, rty_)) if opt else rty_
         if not opt and ("EXN_" in body or "PyExn" in body): bad(n, "internal: exception in a method that cannot raise")
         body = body.replace("EXN_", exn)
         ftypes = {v[0]: COQTY[v[1]] for v in FIELDS[self.cls].values()}
